@@ -79,7 +79,7 @@ def rewrites_selftest(repo, key):
             if not os.path.exists(src): src = os.path.join('/repo', f)
             shutil.copy(src, os.path.join(d, f))
         srcs = gen.load_sources(repo); st = {}
-        o = gen.r9_desugar_iterators(srcs, st)
+        o = gen.r9_desugar_iterators(gen.r16_outline_loop_bodies(srcs, st), st)
         o, _done = gen.r8_inline_new_helpers(o, engine.KNOWN_UNITS(), st)
         n = 0
         for m in srcs:
